@@ -317,19 +317,23 @@ type typeGuesser struct {
 }
 
 func (g *typeGuesser) Guess() (SchemaType, error) {
-	m := map[SchemaType]func() bool{
-		SchemaTypeString:  g.isString,
-		SchemaTypeInteger: g.isInteger,
-		SchemaTypeFloat:   g.isFloat,
-		SchemaTypeBoolean: g.isBoolean,
-		SchemaTypeObject:  g.isObject,
-		SchemaTypeArray:   g.isArray,
-		SchemaTypeNull:    g.isNull,
+	// The order matters: a quoted string may look like a number inside.
+	m := []struct {
+		t  SchemaType
+		fn func() bool
+	}{
+		{SchemaTypeString, g.isString},
+		{SchemaTypeInteger, g.isInteger},
+		{SchemaTypeFloat, g.isFloat},
+		{SchemaTypeBoolean, g.isBoolean},
+		{SchemaTypeObject, g.isObject},
+		{SchemaTypeArray, g.isArray},
+		{SchemaTypeNull, g.isNull},
 	}
 
-	for t, fn := range m {
-		if fn() {
-			return t, nil
+	for _, p := range m {
+		if p.fn() {
+			return p.t, nil
 		}
 	}
 	return SchemaTypeUndefined, ErrUnknownSchemaType
